@@ -12,6 +12,7 @@ mod model;
 mod mutate;
 mod monitor;
 mod observe;
+mod patchview;
 mod plain;
 mod prng;
 mod props;
